@@ -96,3 +96,25 @@ pub fn run_live(ctx: &mut Ctx, name: &str, b: Bounds, depth: usize) {
         true
     });
 }
+
+/// One checked transition for every action from an arbitrary state (every lax diagram is reachable by
+/// some history, so this is "starting from any diagram reached earlier" at sizes the BFS cannot reach).
+pub fn check_one_step(b: &Bounds, s: &L, loc: &mut Local) {
+    let mut sd = s.clone();
+    if b.hyper_only {
+        sd.open.s.clear();
+        sd.open.t.clear();
+    }
+    for a in actions(b, &sd) {
+        loc.trans(1);
+        let o = checked_step(b, &sd, &a);
+        if let Some((k, why)) = o.violation {
+            loc.violation(&format!("step:{}", k), json!({"state": sd, "action": a, "why": why, "on": if b.hyper_only { "lax::Hypergraph" } else { "lax::OpenHypergraph" }}));
+        }
+    }
+    if sd.open.edges.len() >= 2 || sd.open.edges.iter().any(|e| e.src.len() >= 3) {
+        loc.nontrivial();
+    }
+    loc.outcome(&(sd.open.nodes.len(), sd.open.edges.len(), sd.quot.len()));
+    loc.sample(|| json!({"state": sd}));
+}
